@@ -69,6 +69,25 @@ def units(rng, n):
             out.append(("xta-chained-first", [Step("parse_doc", 0, "xta_buffer", 1, 1, xta)]))
         elif r < 0.94:
             out.append(("pretty", [Step("parse_builder", 0, "xml_buffer", 1, "pretty", 0, GM.render_xml(m, rng))]))
+        elif r < 0.955:
+            # builders whose handle_error throws (PrettyPrinter): the grammar is left by an exception
+            bad = rng.choice(["int a; /* open comment", "void f() { /* open", "int a = ;", "int q[", "chan c; c ! ;", "int a; // fine\n/*"])
+            if rng.random() < 0.5:
+                out.append(("pretty-error", [Step("part", 0, 1, rng.choice(["S_DECLARATION", "S_XTA", "S_EXPRESSION", "S_GUARD"]), "pretty", bad)]))
+            else:
+                out.append(("pretty-error", [Step("parse_builder", 0, "xml_buffer", 1, "pretty", 0, xmlgen.simple_model(decl=bad))]))
+        elif r < 0.975:
+            # parses abandoned in the middle of a declarator (file-static counters of the grammar)
+            bad = rng.choice(["bool grid[int[0,1]][2;", "typedef int[0,2] id_t; int q[id_t][", "int z[int[0,1]][int[0,2]", "int y[2][id_t][;",
+                              "typedef struct { int f[int[0,1]][ } s_t;", "int w[int[0,1]][3] = {"])
+            if rng.random() < 0.5:
+                out.append(("abandoned-declarator", [Step("part", 0, 1, "S_DECLARATION", rng.choice(["doc", "expr", "pretty"]), bad)]))
+            else:
+                out.append(("abandoned-declarator", [Step("parse_doc", 0, "xml_buffer", 1, 1, xmlgen.simple_model(decl=bad))]))
+        elif r < 0.99:
+            out.append(("array-declarators", [Step("parse_doc", 0, rng.choice(["xml_buffer", "xta_buffer"]), 1, 1, (xmlgen.simple_model(
+                decl="typedef int[0,2] id_t; int cnt, slots[3]; bool busy[id_t], idle; int m[2][id_t], n2, k[id_t][2]; chan cs[id_t], c1;")
+                if rng.random() < 0.5 else "typedef int[0,2] id_t; int cnt, slots[3]; bool busy[id_t], idle; int m[2][id_t], n2;\nprocess P() { state A; init A; }\nsystem P;"))]))
         else:
             out.append(("decl-part", [Step("part", 0, 1, "S_DECLARATION", "doc", rng.choice(["int a; int b = a;", "int a; void f() {", "typedef struct { int x; } s_t; s_t v;", ""]))]))
     return out
